@@ -313,6 +313,9 @@ pub fn strategy() -> BoxedStrategy<Case> {
         3 => Just(RecvOutcome::Ok),
         3 => (code(), any::<bool>()).prop_map(|(code, with_msg)| RecvOutcome::ErrTrailers { code, with_msg }),
         2 => code().prop_map(|code| RecvOutcome::TrailersOnly { code }),
+        // a successful call answered in one block (a server stream that ends without a message, as other gRPC
+        // implementations send it): header and trailer metadata travel together
+        1 => Just(RecvOutcome::TrailersOnly { code: 0 }),
     ];
     let recv_client = (shape(), recv_entries(4), recv_entries(4), outcome).prop_map(|(shape, headers, trailers, outcome)| Case::RecvClient { shape, headers, trailers, outcome });
     let recv_server = (shape(), recv_entries(5), proptest::bool::weighted(0.3)).prop_map(|(shape, headers, icpt)| Case::RecvServer { shape, headers, icpt });
@@ -1594,6 +1597,19 @@ fn run_recv_client(shape: Shape, headers: &[WEnt], trailers: &[WEnt], outcome: &
         Ok(())
     };
     match outcome {
+        RecvOutcome::TrailersOnly { code: 0 } => {
+            o.label("recv_trailers_only_success");
+            if merged {
+                // a unary call without a message is an error of its own; nothing to judge about metadata
+                ensure!(saw.call_err.is_some(), "C08/call-failed", "a reply without a message satisfied a unary call");
+            } else {
+                if let Some(s) = saw.call_err.as_ref().or(saw.stream_err.as_ref()).or(saw.trailers_err.as_ref()) {
+                    bail!("C08/call-failed", "the peer answered OK (in one block) but the client saw {s:?}");
+                }
+                ensure!(saw.msgs == 0, "C08/call-failed", "{} messages out of an empty reply", saw.msgs);
+                check_received(saw.initial.as_ref().expect("initial metadata"), headers, &[], "response-metadata(trailers-only-ok)", &mut ctx)?;
+            }
+        }
         RecvOutcome::TrailersOnly { code } => {
             o.label("recv_trailers_only_status");
             let Some(s) = &saw.call_err else { bail!("C08/call-failed", "trailers-only error status, but the call returned Ok") };
@@ -1626,6 +1642,9 @@ fn run_recv_client(shape: Shape, headers: &[WEnt], trailers: &[WEnt], outcome: &
                 let folded: &[WEnt] = if *with_msg { &[] } else { headers };
                 o.label_if(!folded.is_empty() && folded.iter().any(|h| trailers.iter().any(|t| t.name == h.name)), "same_key_in_headers_and_trailers");
                 check_received(s.metadata(), trailers, folded, "status-metadata", &mut ctx)?;
+                // ... so the initial metadata is not lost to a caller who only gets a Status
+                check_received(s.metadata(), folded, trailers, "status-metadata(initial)", &mut ctx)?;
+                o.label_if(!folded.is_empty() && !trailers.is_empty(), "unary_error_after_headers_both_with_metadata");
             } else {
                 ensure!(saw.call_err.is_none(), "C08/call-failed", "streaming call failed up front: {:?}", saw.call_err);
                 check_received(saw.initial.as_ref().expect("initial metadata"), headers, &[], "response-metadata", &mut ctx)?;
@@ -1808,7 +1827,7 @@ impl Prop for C08 {
         run(c, o)
     }
     fn rule() -> &'static str {
-        "proptest + enumerated cases, three families. (a) Api: 1-5 names from a static pool (binary names next to the near misses bin, -bin, x-bin-, x-binx, xbin, x-bi, x-bin-bin and reserved names) and 1-25 operations insert/append/insert_bin/append_bin (typed key, &key, &'static str; binary values built from bytes or from padded base64 text), remove/remove_bin, *get_mut=v, entry/entry_bin with all nine entry operations on occupied and vacant entries, clear, into_headers/from_headers, with keys given as MetadataKey, &MetadataKey, &str, String, &String in lower/UPPER/suffix-UPPER/Title/Prefix spellings and 20% accessors of the other kind; reference = ordered multimap with http::HeaderMap semantics; after every step len/keys_len/is_empty, iter/keys/values/iter_mut/values_mut (variant kind must equal the stored name's kind), into_headers (independent base64 decode), and get/get_mut/get_all/contains_key of both kinds for every name of the case in every key form and spelling are compared with the model; for every binary value padded-vs-unpadded equality, hash and to_bytes. A non-lower-case string key may find its own-kind entry or nothing, never an entry of the other kind. (b) Send: caller metadata through the generated client (4 shapes, optionally through an interceptor) into a recording transport; handler initial metadata and error-status metadata (returned or as stream item) through the generated server called in-process: every non-reserved entry under its name with the same ordered values (binary: independent base64 decode), te=trailers, content-type=application/grpc, grpc-status exact, and no value the user attached under a reserved name appears under that name. (c) Recv: headers/trailers/trailers-only status with padded and unpadded base64, ASCII values and repeated names delivered to the generated client (Response::metadata, Streaming::trailers, Status::metadata) and to the generated server (Request::metadata in the handler, optionally behind an interceptor), read back through get/get_bin/get_all/get_all_bin/iter. Non-trivial: >=1 binary value with len mod 3 != 0, or a repeated key, or a reserved name present; distinct = distinct serialised case."
+        "proptest + enumerated cases, three families. (a) Api: 1-5 names from a static pool (binary names next to the near misses bin, -bin, x-bin-, x-binx, xbin, x-bi, x-bin-bin and reserved names) and 1-25 operations insert/append/insert_bin/append_bin (typed key, &key, &'static str; binary values built from bytes or from padded base64 text), remove/remove_bin, *get_mut=v, entry/entry_bin with all nine entry operations on occupied and vacant entries, clear, into_headers/from_headers, with keys given as MetadataKey, &MetadataKey, &str, String, &String in lower/UPPER/suffix-UPPER/Title/Prefix spellings and 20% accessors of the other kind; reference = ordered multimap with http::HeaderMap semantics; after every step len/keys_len/is_empty, iter/keys/values/iter_mut/values_mut (variant kind must equal the stored name's kind), into_headers (independent base64 decode), and get/get_mut/get_all/contains_key of both kinds for every name of the case in every key form and spelling are compared with the model; for every binary value padded-vs-unpadded equality, hash and to_bytes. A non-lower-case string key may find its own-kind entry or nothing, never an entry of the other kind. (b) Send: caller metadata through the generated client (4 shapes, optionally through an interceptor) into a recording transport; handler initial metadata and error-status metadata (returned or as stream item) through the generated server called in-process: every non-reserved entry under its name with the same ordered values (binary: independent base64 decode), te=trailers, content-type=application/grpc, grpc-status exact, and no value the user attached under a reserved name appears under that name. (c) Recv: headers/trailers/trailers-only status with padded and unpadded base64, ASCII values and repeated names delivered to the generated client (Response::metadata, Streaming::trailers, Status::metadata) and to the generated server (Request::metadata in the handler, optionally behind an interceptor), read back through get/get_bin/get_all/get_all_bin/iter. Non-trivial: >=1 binary value with len mod 3 != 0, or a repeated key, or a reserved name present; distinct = distinct serialised case. Also: a successful reply sent in one block (grpc-status 0 with metadata in the HEADERS) to streaming calls; initial metadata of a unary call that fails in the trailers must be found in the Status next to the trailer metadata."
     }
     fn assumptions() -> Vec<String> {
         vec![
